@@ -68,6 +68,10 @@ def run_sequence(ctx, rng):
                     files[("crlf.txt",)] = b"line one\r\nline two\r\n" + bytes(rng.choice(b"ab") for _ in range(3))
                 wsn += 1
                 ws = os.path.join(root, "ws%d" % wsn)
+                if sp["algo"] == "md5-dos2unix" and rng.random() < 0.35:
+                    # larger than one read chunk, binary head, CRLF text in the second chunk: the legacy md5 of such content
+                    # differs from its md5 although its beginning looks binary
+                    files[("mixed.bin",)] = b"\x00\x01\x02" * 200 + b"B" * (2**20 - 600) + b"text line\r\n" * (20 + rng.randrange(10))
                 gen.materialize(ws, files, rng)
                 warmed = 0
                 if shared_state is not None and len(files) >= 3 and rng.random() < 0.6:
